@@ -253,7 +253,7 @@ class SetEncoder(encoder.SequenceEncoder):
                 else:
                     chunk = encodeFun(comp, compType, **options)
 
-                    if wrapType.tagSet and not wrapType.isSameTypeWith(comp):
+                    if wrapType.tagSet and not encoder._isValueOf(wrapType, comp):
                         chunk = encodeFun(chunk, wrapType, **options)
 
             else:
